@@ -177,7 +177,7 @@ def select(cases, quick, rng):
         cap_rest = {"bfs-A": 70, "bfs-B": 80, "bfs-C": 60, "bfs-D": 50, "sim": 60}
     else:
         full_upto = {"bfs-A": 3, "bfs-B": 2, "bfs-C": 2, "bfs-D": 6}
-        cap_rest = {"bfs-A": 800, "bfs-B": 1200, "bfs-C": 800, "bfs-D": 300, "sim": 1200}
+        cap_rest = {"bfs-A": 500, "bfs-B": 800, "bfs-C": 500, "bfs-D": 200, "sim": 800}
     chosen, rest = [], {}
     for tag, c in cases:
         if tag in full_upto and c["n"] <= full_upto[tag]:
@@ -372,7 +372,11 @@ def run(ctx):
         "mismatch_keys": {k: agg[k]["n"] for k in sorted(agg)},
         "invariants_model_checked": INVS,
         "samples": samples,
-        "exhaustive": (not quick) and not ctx.replay_in,
+        # model checking is exhaustive for the configured bounds; the REPLAY is exhaustive only for the first generator
+        # levels (exhaustively_enumerated), everything beyond is a seed-selected sample
+        "exhaustive": False,
+        "exhaustive_for": "replay of every generator state with <= %s steps" % (
+            "1 (A, B, C)" if quick else "3 (A), 2 (B, C), 6 (D)"),
     })
     ctx.assumptions += [
         "schemas are bounded: pools of spec/core/MC_C17.tla (<= 16 user types, wrapper depth <= 7, default value nesting <= 3); "
